@@ -155,6 +155,22 @@ func TestC04(t *testing.T) {
 	rec := ev.New(t, "C04")
 	rec.Rule("rapid-generated histories: 2..4 client goroutines x 8..20 operations over 2..3 keys (Put/Get/Delete/PrefixAppend/PrefixContains/PrefixRemove/PrefixList, unique put values, 3 children) issued ONCE each through generated live entry nodes (any node whose Join returned and that has not finished leaving), concurrently with a generated churn plan (1..3 phases of 1..3 concurrent joins/leaves, ids next to the keys' hashes, seeded call delays). Oracle: (1) every error is retryable or one of the two documented semantic conflicts; (2) per key, the history of SUCCESSFUL operations (failed ones must be no-ops, so they are left out: any effect they had makes a later read inexplicable) is linearizable w.r.t. a register + set model (porcupine, 20 s budget, unknown = inconclusive). Non-trivial: >= 2 clients touched one key and >= 1 operation overlapped a membership action in time. Distinct = distinct plans.")
 	rec.Assume("timestamps from the process-wide monotonic clock; porcupine v1.3.0 is trusted as the linearizability checker")
+	// scenario tier: an operation that is inside the owner's storage when the membership lock is taken
+	for _, kind := range []string{"put", "append", "delete"} {
+		if p := opInFlightWhenLockTaken(kind); p != "" {
+			if len(p) > 13 && p[:13] == "precondition:" {
+				rec.Inconclusive("scenario-precondition")
+				t.Logf("op-in-flight scenario (%s): %s", kind, p)
+			} else {
+				rec.Fail(t, "operation-result-disagrees-with-its-effect", map[string]any{"schedule": "ring {1<<44, 2<<44, 3<<44}; a " + kind + " on a key owned by 3<<44 is executing inside 3<<44's store when 2<<44's RequestToLeave takes 3<<44's membership lock", "problem": p}, "%s", p)
+			}
+		} else {
+			k := kind
+			rec.Case(true, "scenario:op-in-flight:"+k, func() any {
+				return map[string]any{"scenario": "KV operation inside the owner's store while its membership lock is taken", "op": k}
+			}, "scenario:op-in-flight-when-lock-taken")
+		}
+	}
 	// regression tier: the minimal schedule of a non-retryable failure found by the thorough tier
 	if p := joiningNodeKVWindow(); p != "" {
 		if len(p) > 13 && p[:13] == "precondition:" {
